@@ -397,6 +397,13 @@ def _check_em(case):
         if kind == 'lognorm':
             case.true(bool(np.all(y > 0)), 'log-normal sample <= 0', kind='support')
 
+    with case.clause('em_inputs_unchanged:' + kind):
+        a_sig, a_yb = sig_free.copy(), ybar.copy()
+        em.sample(a_sig, a_yb, n_samples=3, seed=int(s['seed']))
+        case.true(np.array_equal(a_sig, sig_free) and np.array_equal(a_yb, ybar),
+                  'sample() modified the arrays it was given: parameters %r -> %r, model output %r -> %r' % (
+                      sig_free.tolist(), a_sig.tolist(), ybar.tolist()[:6], a_yb.tolist()[:6]), kind='input_modified')
+
     mean, std, skew, kurt = _em_moments(kind, sig, ybar)
 
     def draw(n, seed):
@@ -553,6 +560,19 @@ def _check_pop(case):
             for key, (p, stat, det) in hard(li, x, np.zeros(len(x), dtype=int))[0].items():
                 if p == 0.0:
                     case.fail(stat, '%s (n_samples=%r): %s' % (key[0], ns, det))
+
+    # the caller's arrays are inputs: sampling leaves them as they are (they are used again afterwards, e.g. to
+    # transform the sampled eta into individual parameters)
+    with case.clause('pop_inputs_unchanged'):
+        th = theta.copy()
+        cv = None if cov is None else cov[0].copy()
+        kw = {} if cv is None else {'covariates': cv}
+        m.sample(parameters=th, n_samples=3, seed=int(s['seed']), **kw)
+        case.true(np.array_equal(th, theta), 'sample() modified the parameter array it was given: %r -> %r' % (
+            theta.tolist()[:8], th.tolist()[:8]), kind='input_modified')
+        if cv is not None:
+            case.true(np.array_equal(cv, cov[0]), 'sample() modified the covariate array it was given',
+                      kind='input_modified')
 
     def tests(data):
         x, row = data
